@@ -130,18 +130,27 @@ static void lk_step(int op, volatile void* p, int ok, uintptr_t oldv) {
   else if (cls[0] == 'x') { printf("S %d %s heap %d ", cur, kind, k); lk_heapval(oldv); printf(" -> "); lk_heapval(newv); printf("\n"); }
   else { printf("S %d %s del %d ", cur, kind, k); lk_del(oldv); printf(" -> "); lk_del(newv); printf("\n"); }
 }
+// declare the heaps of the calling thread that the log has not mentioned yet (before their first use)
+static void lk_declare(void) {
+  mi_heap_t* dh = mi_prim_get_default_heap();
+  if (dh == NULL || dh == (mi_heap_t*)&_mi_heap_empty) return;
+  for (mi_heap_t* h = dh->tld->heaps; h != NULL; h = h->next) {
+    int hid = heap_id(h);
+    if (hid >= 0 && !heap_printed[hid]) { heap_printed[hid] = 1; printf("H %d %d %d\n", hid, cur, h == dh->tld->heap_backing ? 1 : 0); }
+  }
+}
 static void lk_list(mi_page_t* pg, mi_block_t* b) { int cnt = 0; while (b != NULL && cnt < 70000) { printf(" %zu", blk_idx(pg, b)); b = (mi_block_t*)b->next; cnt++; } }
 // the calling thread is between two API calls: declare its heaps, snapshot all its pages, retire the ids of freed pages
 static void lk_sync(void) {
   if (!lockfmt || !do_log) return;
   int so = sched_on; sched_on = 0;                          // the snapshot itself is not a scheduling point
+  lk_declare();
   mi_heap_t* dh = mi_prim_get_default_heap();
   static int seen[MAXPG];
   for (int i = 0; i < npages; i++) seen[i] = 0;
   if (dh != NULL && dh != (mi_heap_t*)&_mi_heap_empty) {
     for (mi_heap_t* h = dh->tld->heaps; h != NULL; h = h->next) {
       int hid = heap_id(h);
-      if (hid >= 0 && !heap_printed[hid]) { heap_printed[hid] = 1; printf("H %d %d %d\n", hid, cur, h == dh->tld->heap_backing ? 1 : 0); }
       for (size_t b = 0; b <= MI_BIN_FULL; b++) for (mi_page_t* pg = h->pages[b].first; pg != NULL; pg = pg->next) {
         if (pg->block_size < 2048) continue;              // not used by the lock program (e.g. the warm-up block's page)
         int k = page_id(pg); if (k < 0) continue;
@@ -162,6 +171,7 @@ static void lk_sync(void) {
 }
 static void lk_call(const char* what, void* p) {            // "A <tid> <call> [<page>.<idx>]"
   if (!lockfmt || !do_log) return;
+  lk_declare();
   if (p != NULL) { mi_page_t* pg = _mi_ptr_page(p); printf("A %d %s %d.%zu\n", cur, what, page_known(pg), blk_idx(pg, _mi_page_ptr_unalign(pg, p))); }
   else printf("A %d %s\n", cur, what);
 }
@@ -246,7 +256,7 @@ static void run_program(void) {
       int best = -1; for (int j = 0; j < NSLOT; j++) { int q = (s + j) % NSLOT; if (slots[q].p != NULL) { best = q; if (slots[q].owner != cur) break; } }
       if (best >= 0) do_free(best);
     }
-    else if (r < 90) { int f = prng_below(&GP, 2) != 0; if (lockfmt && do_log) printf("A %d collect %d %d\n", cur, heap_id(mi_prim_get_default_heap()), f); mi_collect(f); lk_ret(); }
+    else if (r < 90) { int f = prng_below(&GP, 2) != 0; if (lockfmt && do_log) { lk_declare(); printf("A %d collect %d %d\n", cur, heap_id(mi_prim_get_default_heap()), f); } mi_collect(f); lk_ret(); }
     else if (r < 93) verif_pre(VOP_YIELD, NULL);
     else if (mode == 1 && cur != 0 && r < 96 && k > nops / 4) { break; }          // terminate early with live blocks
     else if (mode == 2 && cur != 0 && extra_heap[cur] != NULL && r < 97) {
@@ -270,7 +280,7 @@ static void run_program(void) {
     for (int j = 0; j < NSLOT; j++) { int q = (j * 7 + cur * 13) % NSLOT; if (slots[q].p != NULL) do_free(q); }
     barrier(2);
     // phase 2: every owner collects; its heap must then hold no pages (C08)
-    if (lockfmt && do_log) printf("A %d collect %d 1\n", cur, heap_id(mi_prim_get_default_heap()));
+    if (lockfmt && do_log) { lk_declare(); printf("A %d collect %d 1\n", cur, heap_id(mi_prim_get_default_heap())); }
     mi_collect(true);
     lk_ret();
     mi_heap_t* h = mi_prim_get_default_heap();
